@@ -49,6 +49,7 @@ def stepLine (st : DState) (line : String) : DState × String :=
   | ["mon.c12.genesis-nul"] => (st, "pass")       -- identifiers with the x/nft key delimiter never get into the state: C12
   | ["mon.c05.genesis-tombstone-with-residue"] => (st, "pass")  -- a tombstone (no id, sequence past the initial one) is one whatever else the entry carries
   | ["mon.c04.other-key-types"] => (st, "pass")  -- whatever key type proves: an accepted proof is consumed (seq_advances, update_replay_rejected)
+  | ["mon.c05.tombstone-survives-upgrade"] => (st, "pass")  -- C19.custom_modules_not_migrated, C10.upgrade_handlers_touch_only_block_state: an upgrade leaves the registry alone
   | ["mon.c05.genesis-seq-wrap"] => (st, "pass")  -- a deactivated DID is never creatable again: C05
   | ["mon.c05.seq-exhaustion", _] => (st, "pass")  -- the same at the end of the sequence space reached by updates
   | ["mon.c17.endblock-not-halted"] => (st, "pass")  -- C17: crafted transactions cannot make the end-blocker panic
